@@ -1,4 +1,4 @@
-(** C01 — bulk_load (btree.hpp bulk_load): the item / child distribution is a balanced partition, the
+(** C01 — bulk_load_shipped (btree.hpp bulk_load_shipped): the item / child distribution is a balanced partition, the
     result contains exactly the input sequence, and for a key-sorted input the result satisfies the
     full tree invariant [Inv] (uniform depth, arity, fill bounds incl. minimum fill, separators, order). *)
 From Coq Require Import List Bool Arith Lia.
@@ -130,7 +130,7 @@ Section Distribute.
         * assert (Hm : c * S take <= c * hi) by (apply Nat.mul_le_mono_l; lia). lia.
   Qed.
 
-  (** ** the instances used by bulk_load *)
+  (** ** the instances used by bulk_load_shipped *)
   (** leaves: ceil(n/leafmax) leaves; each holds between 1 and leafmax items *)
   Lemma leaf_chunks_bounds leafmax (l : list A) :
     1 <= leafmax ->
@@ -225,7 +225,7 @@ Section Bulk.
   Notation mk_parent := (@mk_parent K V dk).
   Notation build_level := (@build_level K V dk innermax).
   Notation build_up := (@build_up K V dk innermax).
-  Notation bulk_load := (bulk_load key dk leafmax innermax).
+  Notation bulk_load_shipped := (bulk_load_shipped key dk leafmax innermax).
   Notation Inv := (Inv ltb key dk leafmax innermax dup).
 
   (** the elements below a level of (node, maxkey) pairs *)
@@ -280,19 +280,19 @@ Section Bulk.
     cbn [map flat_map concat fst elems]. now rewrite IH.
   Qed.
 
-  Lemma bulk_load_nil : bulk_load [] = None.
+  Lemma bulk_load_shipped_nil : bulk_load_shipped [] = None.
   Proof.
-    unfold Model.bulk_load. cbn [length].
+    unfold Model.bulk_load_shipped. cbn [length].
     rewrite Nat.div_small by lia. reflexivity.
   Qed.
 
   Lemma num_leaves_eq n : (n + leafmax - 1) / leafmax = (n + (leafmax - 1)) / S (leafmax - 1).
   Proof. replace (S (leafmax - 1)) with leafmax by lia. f_equal. lia. Qed.
 
-  Lemma bulk_load_some l :
-    l <> [] -> exists n, bulk_load l = Some n /\ elems n = l.
+  Lemma bulk_load_shipped_some l :
+    l <> [] -> exists n, bulk_load_shipped l = Some n /\ elems n = l.
   Proof.
-    intros Hne. unfold Model.bulk_load.
+    intros Hne. unfold Model.bulk_load_shipped.
     assert (Hn : 1 <= length l) by (destruct l; [congruence|cbn [length]; lia]).
     set (cnt := (length l + leafmax - 1) / leafmax).
     assert (Hc1 : 1 <= cnt) by (unfold cnt; rewrite num_leaves_eq; apply ceil_pos; exact Hn).
@@ -305,11 +305,11 @@ Section Bulk.
       rewrite He, leaves_elems. apply distribute_concat. lia.
   Qed.
 
-  Theorem bulk_load_elems l : t_elems (bulk_load l) = l.
+  Theorem bulk_load_shipped_elems l : t_elems (bulk_load_shipped l) = l.
   Proof.
     destruct l as [|v r].
-    - now rewrite bulk_load_nil.
-    - destruct (bulk_load_some (v :: r) ltac:(discriminate)) as (n & Hb & He).
+    - now rewrite bulk_load_shipped_nil.
+    - destruct (bulk_load_shipped_some (v :: r) ltac:(discriminate)) as (n & Hb & He).
       rewrite Hb. exact He.
   Qed.
 
@@ -322,10 +322,10 @@ Section Bulk.
     rewrite app_length, Hc, IHcs. reflexivity.
   Qed.
 
-  Corollary bulk_load_size l : t_size (bulk_load l) = length l.
+  Corollary bulk_load_shipped_size l : t_size (bulk_load_shipped l) = length l.
   Proof.
-    rewrite <- (bulk_load_elems l) at 2.
-    destruct (bulk_load l) as [n|]; [apply size_elems|reflexivity].
+    rewrite <- (bulk_load_shipped_elems l) at 2.
+    destruct (bulk_load_shipped l) as [n|]; [apply size_elems|reflexivity].
   Qed.
 
   (** ** part 2: shape *)
@@ -479,24 +479,24 @@ Section Bulk.
       apply leaf_ok; [exact H2|exact H1|]. intros _. exact H3.
   Qed.
 
-  (** the result of bulk_load has the shape of a B+ tree, whatever the input *)
-  Theorem bulk_load_shape l n :
-    bulk_load l = Some n -> shape true (height n) n.
+  (** the result of bulk_load_shipped has the shape of a B+ tree, whatever the input *)
+  Theorem bulk_load_shipped_shape l n :
+    bulk_load_shipped l = Some n -> shape true (height n) n.
   Proof.
-    intros Hb. unfold Model.bulk_load in Hb.
+    intros Hb. unfold Model.bulk_load_shipped in Hb.
     destruct (build_up_shape _ _ 0 n (leaves_ok l) Hb) as (h & Hs).
     rewrite (shape_height _ _ _ Hs). exact Hs.
   Qed.
 
   (** ** the invariant *)
-  Theorem bulk_load_inv l :
-    keys_sorted ltb key dup l -> Inv (bulk_load l).
+  Theorem bulk_load_shipped_inv l :
+    keys_sorted ltb key dup l -> Inv (bulk_load_shipped l).
   Proof.
     intros Hs. destruct l as [|v r].
-    - rewrite bulk_load_nil. reflexivity.
-    - destruct (bulk_load_some (v :: r) ltac:(discriminate)) as (n & Hb & He).
+    - rewrite bulk_load_shipped_nil. reflexivity.
+    - destruct (bulk_load_shipped_some (v :: r) ltac:(discriminate)) as (n & Hb & He).
       rewrite Hb. apply Inv_Some. split.
-      + apply bulk_load_shape with (l := v :: r). exact Hb.
+      + apply bulk_load_shipped_shape with (l := v :: r). exact Hb.
       + rewrite He. exact Hs.
   Qed.
 End Bulk.
